@@ -121,7 +121,7 @@ def SimFn (code : Code) (lim : Limits) (s0 : VMState) (rest : List Frame) (spec 
 theorem fn_body_correct (cfg : Cfg) (code : Code) (lim : Limits) (T : List String) (fuel : Nat)
     (cs : CState) (fd : FnDef) (stmts : List Stmt) (r : NCode) (spec : St) (s0 : VMState) (fname : String)
     (rest : List Frame)
-    (hs : Frag.okSs stmts = true) (hT : ∀ x ∈ Frag.identsSs stmts, x ∈ T) (hdig : ∀ x ∈ T, NoTrailingDigit x)
+    (hs : Frag.okSs stmts = true) (hT : ∀ x ∈ Frag.identsSs stmts, x ∈ T)
     (hws : Frag.wsSs cs.currModule stmts (fnEnv cs fd.name) = true)
     (hkey : cleanupKey cs.currModule fd.name ∉ T)
     (houter : ∀ sc ∈ cs.scopes, ∀ x ∈ T, sc.lookup x = none)
@@ -165,7 +165,7 @@ theorem fn_body_correct (cfg : Cfg) (code : Code) (lim : Limits) (T : List Strin
   have hbody := compiled_stmts_correct cfg code lim cs.currModule T fuel stmts (fnEnv cs fd.name) spec s1
     ⟨fname, 1⟩ rest [((Instr.addMp (R.2.nv : Int) : SInstr), fd.sp)]
     [(.label (freshLabel cs.currModule cs.labelMangle "cleanup").1, fd.sp), (.addMp (-(R.2.nv : Int)), fd.sp),
-      (.ret, fd.sp)] r s1.stack s1.mem hs hT hdig hws (by rw [hR]; exact hrel)
+      (.ret, fd.sp)] r s1.stack s1.mem hs hT hws (by rw [hR]; exact hrel)
     (by have := fn_hpost cs fd stmts; rw [hR] at this; rw [hR]; exact this) hcalls1 hfn hframe
     (by rw [hspec]; exact hst) hheap
   rw [hR] at hbody
